@@ -1173,6 +1173,18 @@ fn main() {
         let want = ((all && !shadowed) || sel.contains(&f.key) || sel.contains(&fk)) && !exclude.contains(&f.key) && !exclude.contains(&fk);
         if want {
             if !seen.insert(f.key.clone()) {
+                // `Type::name` defined both as an inherent method and as a trait-impl method: a path call
+                // `Type::name(..)` resolves to the inherent one (Rust name resolution), so that is the one
+                // extracted under this key; the trait-impl forwarder is reachable only through trait dispatch (T8)
+                if let Some(i) = selected.iter().position(|g| g.key == f.key) {
+                    if selected[i].trait_name.is_some() && f.trait_name.is_none() {
+                        selected[i] = f.clone();
+                        continue;
+                    }
+                    if selected[i].trait_name.is_none() && f.trait_name.is_some() {
+                        continue;
+                    }
+                }
                 errors.push(format!("ambiguous function key {} (second definition in {})", f.key, f.file));
                 continue;
             }
